@@ -92,7 +92,11 @@ def ref_findall(lst, key, value):
 
 def ref_findunique(lst, key):
     k = key.lower()
-    return sorted({item[k] for item in lst if k in item and item[k] is not None})
+    out = []
+    for item in lst:
+        if k in item and item[k] is not None and not any(item[k] == o for o in out):
+            out.append(item[k])
+    return sorted(out)
 
 
 # ------------------------------------------------------------------ the check
@@ -140,6 +144,8 @@ class C18(core.Check):
         if isinstance(spec, list):
             if spec[0] == "l":
                 return [self.build(v, real) for v in spec[1]]
+            if spec[0] == "t":
+                return tuple(self.build(v, real) for v in spec[1])
             if spec[0] == "d":
                 if spec[1] == "ci":
                     d = self.CI(self.CI) if real else FoldDict()
@@ -166,8 +172,10 @@ class C18(core.Check):
             return r.choice(WORDS)
         if c < 0.8:
             return r.choice([0, 1, 2, 10])
-        if c < 0.9:
-            return r.choice([0.0, 1.5])
+        if c < 0.88:
+            return r.choice([0.0, 1.5, 12.5])
+        if c < 0.93:
+            return None  # a key can exist and hold None
         return r.choice([True, False])
 
     def gen_doc(self, r, cls, depth=0):
@@ -217,7 +225,7 @@ class C18(core.Check):
                 for _ in range(r.choice([0, 0, 1, 2])):
                     lst.append(self.gen_doc(r, "plain", 3))
                 if lst:
-                    items.append([kk, ["l", lst]])
+                    items.append([kk, ["t" if r.random() < 0.2 else "l", lst]])  # a tuple of patches is merged like a list
             elif isinstance(v, list):
                 items.append([kk, DEL if r.random() < 0.2 else ["l", [r.choice([0, 1, 255]) for _ in range(r.choice([1, 2, 3]))]]])
             else:
@@ -292,7 +300,7 @@ class C18(core.Check):
                 lst = core.get_path(model, path)
                 key = r.choice(SCALAR_KEYS)
                 present = [it[key] for it in lst if key in it and not isinstance(it[key], (list, dict))]
-                pool = list(WORDS) + [0, 1, False, 0.0]
+                pool = list(WORDS) + [0, 1, False, 0.0, None, 1.0, 12.5]
                 if present:
                     pool += present * 4
                     for p in present:
@@ -326,7 +334,7 @@ class C18(core.Check):
                     return False
                 elif not have and not self.compatible({}, v):
                     return False
-            elif isinstance(v, list) and all(i is None or isinstance(i, dict) for i in v):
+            elif isinstance(v, (list, tuple)) and all(i is None or isinstance(i, dict) for i in v):
                 if len(v) == 0:
                     return False
                 orig = model[kk] if have else []
@@ -408,8 +416,11 @@ class C18(core.Check):
                     violation = viol("update_result_kind", op, {"real": rr[:2], "model": mr[:2]})
                     break
                 if rr[0] == "exc":
-                    violation = viol("update_raised", op, {"real": rr[1], "model": mr[1]})
-                    break
+                    # reference and code fail alike: the patch asks for something the statement is silent about
+                    bump("skipped.patch_outside_the_statement")
+                    real = self.build(case["doc"], real=True)  # both sides may be half-updated: start again from the document
+                    model = self.build(case["doc"], real=False)
+                    continue
                 root_delete = mr[2] is not model
                 if root_delete:
                     bump("op.update.root_delete")
@@ -479,8 +490,11 @@ class C18(core.Check):
                     if any(isinstance(it.get(lk), (list, dict)) for it in mlst):
                         bump("reach.items_holding_list_or_dict_under_the_key")  # equality still decides: never a match for a scalar
                 else:
-                    if not all(isinstance(it[lk], str) for it in mlst if lk in it):
-                        bump("skipped.unsortable_values")
+                    vals_ = [it[lk] for it in mlst if lk in it and it[lk] is not None]
+                    all_str = all(isinstance(v_, str) for v_ in vals_)
+                    all_num = all(isinstance(v_, (int, float)) and not isinstance(v_, bool) for v_ in vals_)
+                    if not (all_str or all_num):
+                        bump("skipped.unsortable_values")  # sorted() needs mutually comparable values
                         continue
                 before = self.norm(rlst)
                 sig = {"items_lacking_key": "yes" if lacking else "no",
